@@ -10,11 +10,19 @@ exception / other error / TApplicationException.
     handler's outcome, a successful oneway call produced no reply frame, inherited methods behave like own
     ones, an unknown method / wrong reply name / wrong reply type is rejected with the documented exception;
   * correspondence: every call is replayed on the Coq model (Judge/JGenCall.v over Model/GenCall.v): the model's
-    end-to-end rpc_call on the same arguments and scripted outcome, and -- binary protocol -- the model's
-    server on the request bytes that travelled and the model's client on the reply bytes that travelled.
+    end-to-end rpc_call on the same arguments and scripted outcome, and -- binary AND compact protocols -- the
+    model's server on the request bytes that travelled and the model's client on the reply bytes that travelled
+    (the model runs over the codec of the session: bin_codec / compact_codec of Model/GenCall.v; JSON sessions are
+    judged at the level of values only);
+  * bursts (the same calls again, several in flight at once through the one generated client): direct oracle = each
+    caller got what the same call got alone; correspondence = Judge/JGenCallConc.v over Model/GenCallConc.v (registry
+    model x call model): on the frames that travelled during a round the hypotheses of c03_concurrent_calls_independent
+    (pairwise distinct op ids, replies delivered when alone, nothing but server replies to these calls arrived) and its
+    conclusion (each caller's outcome, handler log and own request / reply bytes are the model's for the call made alone).
 """
 import collections
 import struct
+import threading
 import time
 
 import lab
@@ -30,6 +38,8 @@ THRIFT_JSON_SPLIT = re.compile(rb"Expected '(-?Infinity|NaN)' but found '")
 TRANSPORTS = ["mem", "tcp", "http", "nats"]
 PROTOS = ["binary", "compact", "json"]
 REGISTRY = {"mem": 0, "http": 0, "tcp": 1, "nats": 1}
+PROTO_CODE = {"binary": 0, "compact": 1, "json": 2}
+BYTE_LEVEL = ("binary", "compact")
 
 
 def go_name(m):
@@ -301,6 +311,7 @@ def plan_session(rng, P, cfn, csvc, sfn, ssvc, transport, proto, per_method, tam
             else:
                 continue
             c.desc = desc
+            c.proto = proto
             c.tamper = None
             req = {"method": go_name(m), "args": [L.to_wire(p, a["type"], v) for a, v in zip(m["args"], c.args)],
                    "outcome": spec}
@@ -310,7 +321,8 @@ def plan_session(rng, P, cfn, csvc, sfn, ssvc, transport, proto, per_method, tam
                 if rng.random() < 0.5:
                     c.tamper = {"name": (wire_name(m) + "x").encode().hex() if rng.random() < 0.7 else b"".hex()}
                 else:
-                    c.tamper = {"type": rng.choice([1, 4, 0, 5, 77])}
+                    # TCompactProtocol carries three bits of the type: 12 arrives as 4, 13 and 77 as 5
+                    c.tamper = {"type": rng.choice([1, 4, 0, 5, 77] + ([7, 6, 12, 13] if proto == "compact" else []))}
                 req["tamper"] = c.tamper
             calls.append(c)
             reqs.append(req)
@@ -358,6 +370,7 @@ def plan_boundary(rng, P, transport, proto, sizes):
         which = rng.random()
         c = Call()
         c.dfn, c.dsvc, c.own, c.tamper, c.unwritable = fn, "Echo", True, None, False
+        c.proto = proto
         if which < 0.45:      # a large request
             c.m, c.args, c.desc = echo, ["a" * n], ("ret", "ok")
         elif which < 0.9:     # a large reply
@@ -375,6 +388,7 @@ def plan_boundary(rng, P, transport, proto, sizes):
         for n in range(-sizes[0]):
             c = Call()
             c.dfn, c.dsvc, c.own, c.tamper, c.unwritable = fn, "Echo", True, None, False
+            c.proto = proto
             c.m, c.args, c.desc = summ, ["p" * (3950 + n), [float("-inf")] * 30], ("ret", n)
             calls.append(c)
             reqs.append({"method": go_name(summ), "args": [L.to_wire(p, a["type"], v) for a, v in zip(summ["args"], c.args)],
@@ -436,6 +450,8 @@ def expected_client(P, c, server_has):
         if "name" in c.tamper:
             return ("appexc", 3, wn + b" failed: wrong method name")
         t = c.tamper["type"]
+        if getattr(c, "proto", "binary") == "compact":
+            t %= 8
         if t == 2:
             pass
         elif t == 3:
@@ -488,7 +504,61 @@ def observed_client(P, c, o):
 
 # ------------------------------------------------------------------------------------------------
 
-def run_program(ctx, prog, lab_id, plan, stats, judge_cases, judge_meta):
+def call_token(P, c, o, hl, seen, text, cfn, csvc, sfn, ssvc, transport, proto, reqf, reps, byte_level=True):
+    """the token of one observed call for Judge/JGenCall.v (judge_call); None if the request frame is unusable.
+    o: the harness' observation (client outcome), hl: handler invocations observed, seen: the arguments the handler saw,
+    text: Error() of the scripted error, reqf / reps: request frame and reply frames (with their 4-byte size)"""
+    p, m, d = P.p, c.m, c.desc
+    wn = wire_name(m)
+    hdrs = parse_headers(reqf)
+    if c.unwritable and not reqf:
+        hdrs = [[b"_cid", b"c03"], [b"_opid", str(o.get("opid")).encode()], [b"_timeout", b"2000"]]
+    if hdrs is None:
+        return None
+    tok_args = [P.slot_tok(a["type"], v) for a, v in zip(m["args"], c.args)]
+    if d[0] == "ret":
+        tok_out = [0, [] if (m["ret"] is None or d[1] is None) else [C2.val_tok(p, m["ret"], d[1])]]
+    elif d[0] == "exc":
+        _, sdef = L.lookup(p, d[1], d[2])
+        tok_out = [1, P.names[(d[1], d[2])], C2.struct_tok(p, sdef, d[3]), text]
+    elif d[0] == "appexc":
+        tok_out = [2, d[1], text]
+    else:
+        tok_out = [3, d[1]]
+    tok_log = []
+    for h in hl:
+        tok_log.append([wn.encode(), [P.slot_tok(a["type"], v) for a, v in zip(m["args"], seen)]])
+    oc = o["client"]
+    k = oc.get("kind")
+    if k == "ret":
+        v = None if m["ret"] is None else L.from_wire(p, m["ret"], oc.get("value"))
+        tok_cli = [0, [] if v is None else [C2.val_tok(p, m["ret"], v)]]
+    elif k == "declared":
+        fn2, sdef = P.by_key[oc["exc"]]
+        tok_cli = [1, P.names[(fn2, sdef["name"])], C2.struct_tok(p, sdef, L.struct_from_wire(p, sdef, oc["value"]))]
+    elif k == "appexc":
+        tok_cli = [2, oc["type"], bytes.fromhex(oc["msg"])]
+    elif k == "transport":
+        tok_cli = [4] if oc["type"] == 3 else [3, oc["type"], bytes.fromhex(oc["msg"])]
+    else:
+        tok_cli = [5]
+    binary = byte_level and proto in BYTE_LEVEL
+    if proto == "json":
+        tok_args, tok_log, tok_cli = canon_nan(tok_args), canon_nan(tok_log), canon_nan(tok_cli)
+        if tok_out[0] in (0, 1):
+            tok_out = tok_out[:2] + canon_nan(tok_out[2:3]) + tok_out[3:] if tok_out[0] == 1 else canon_nan(tok_out)
+    tam = []
+    if c.tamper is not None:
+        tam = [[] if "name" not in c.tamper else [bytes.fromhex(c.tamper["name"])],
+               [] if "type" not in c.tamper else [c.tamper["type"]]]
+    fuel = min(400000, 4 * (len(reqf) + sum(len(x) for x in reps)) + 2000)
+    return [P.sids[(cfn, csvc)], P.sids[(sfn, ssvc)], go_name(m).encode(), REGISTRY[transport], hdrs,
+            tok_args, tok_out, tok_log, tok_cli, len(reps),
+            [reqf[4:]] if (binary and reqf) else [], [reps[0][4:]] if (binary and reps) else [], tam, fuel,
+            PROTO_CODE[proto]]
+
+
+def run_program(ctx, prog, lab_id, plan, stats, judge_cases, judge_meta, burst_cases=None, burst_meta=None):
     lb = lab.Lab(prog, lab_id=lab_id, extra_imports=["verifharness/lab/ext_c03"])
     try:
         lb.build()
@@ -498,7 +568,7 @@ def run_program(ctx, prog, lab_id, plan, stats, judge_cases, judge_meta):
         lb.remove()
         return
     try:
-        _run_program(ctx, prog, lb, plan, stats, judge_cases, judge_meta)
+        _run_program(ctx, prog, lb, plan, stats, judge_cases, judge_meta, burst_cases, burst_meta)
     finally:
         lb.remove()
 
@@ -512,9 +582,10 @@ def plan_program(rng, P, svcs, plan):
         for (t, pr) in combos[:plan["combos"]]:
             req, calls = plan_session(rng, P, fn, sv, fn, sv, t, pr, plan["per_method"])
             sessions.append((req, calls, fn, sv, fn, sv, t, pr))
-        # byte-level sessions: binary over the in-memory transport, with and without tampering of the reply
-        req, calls = plan_session(rng, P, fn, sv, fn, sv, "mem", "binary", plan["per_method"], tamper=True)
-        sessions.append((req, calls, fn, sv, fn, sv, "mem", "binary"))
+        # sessions with tampering of the reply's message header (binary and compact over the in-memory transport)
+        for pr in BYTE_LEVEL:
+            req, calls = plan_session(rng, P, fn, sv, fn, sv, "mem", pr, plan["per_method"], tamper=True)
+            sessions.append((req, calls, fn, sv, fn, sv, "mem", pr))
         # a server that does not know the client's methods: a processor of another service
         mine = {wire_name(m) for _, _, m in L.service_methods(p, fn, sv)}
         for (fn2, sv2) in svcs:
@@ -533,7 +604,7 @@ def plan_program(rng, P, svcs, plan):
     return sessions
 
 
-def _run_program(ctx, prog, lb, plan, stats, judge_cases, judge_meta):
+def _run_program(ctx, prog, lb, plan, stats, judge_cases, judge_meta, burst_cases=None, burst_meta=None):
     rng = ctx.rng
     P = Prog(prog, lb)
     p = prog
@@ -640,6 +711,9 @@ def _run_program(ctx, prog, lb, plan, stats, judge_cases, judge_meta):
             if problems:
                 sig = None
                 txt = bytes.fromhex((o.get("client") or {}).get("msg", "") or "")
+                if proto == "json" and m["oneway"]:
+                    # a oneway caller does not see the error: its text is in the EXCEPTION frame the server sent
+                    txt += b"".join(bytes.fromhex(x) for x in o.get("replies") or [])
                 if proto == "json" and THRIFT_JSON_SPLIT.search(txt):
                     # Apache Thrift's TSimpleJSONProtocol reads NaN / Infinity / -Infinity with one bufio Read: a token
                     # that straddles the reader's 4096-byte buffer comes back short (known finding, outside /repo)
@@ -651,54 +725,14 @@ def _run_program(ctx, prog, lb, plan, stats, judge_cases, judge_meta):
             stats["oracle_ok"] += 1
             # --- judge case
             reqf = bytes.fromhex(o.get("request") or "")
-            hdrs = parse_headers(reqf)
-            if c.unwritable and not reqf:
-                hdrs = [[b"_cid", b"c03"], [b"_opid", str(o.get("opid")).encode()], [b"_timeout", b"2000"]]
-            if hdrs is None:
+            reps = [bytes.fromhex(x) for x in o.get("replies") or []]
+            call_tok = call_token(P, c, o, hl, getattr(c, "seen", None), c.text, cfn, csvc, sfn, ssvc, transport, proto,
+                                  reqf, reps)
+            if call_tok is None:
                 ctx.violation("C03: request frame not recorded / malformed", rep)
                 continue
-            reps = [bytes.fromhex(x) for x in o.get("replies") or []]
-            tok_args = [P.slot_tok(a["type"], v) for a, v in zip(m["args"], c.args)]
-            if d[0] == "ret":
-                tok_out = [0, [] if (m["ret"] is None or d[1] is None) else [C2.val_tok(p, m["ret"], d[1])]]
-            elif d[0] == "exc":
-                _, sdef = L.lookup(p, d[1], d[2])
-                tok_out = [1, P.names[(d[1], d[2])], C2.struct_tok(p, sdef, d[3]), c.text]
-            elif d[0] == "appexc":
-                tok_out = [2, d[1], c.text]
-            else:
-                tok_out = [3, d[1]]
-            tok_log = []
-            for h in hl:
-                dfn, dsvc, sm = served[wn]
-                tok_log.append([wn.encode(), [P.slot_tok(a["type"], v) for a, v in zip(m["args"], c.seen)]])
-            oc = o["client"]
-            k = oc.get("kind")
-            if k == "ret":
-                v = None if m["ret"] is None else L.from_wire(p, m["ret"], oc.get("value"))
-                tok_cli = [0, [] if v is None else [C2.val_tok(p, m["ret"], v)]]
-            elif k == "declared":
-                fn2, sdef = P.by_key[oc["exc"]]
-                tok_cli = [1, P.names[(fn2, sdef["name"])], C2.struct_tok(p, sdef, L.struct_from_wire(p, sdef, oc["value"]))]
-            elif k == "appexc":
-                tok_cli = [2, oc["type"], bytes.fromhex(oc["msg"])]
-            elif k == "transport":
-                tok_cli = [4] if oc["type"] == 3 else [3, oc["type"], bytes.fromhex(oc["msg"])]
-            else:
-                tok_cli = [5]
-            binary = proto == "binary"
-            if proto == "json":
-                tok_args, tok_log, tok_cli = canon_nan(tok_args), canon_nan(tok_log), canon_nan(tok_cli)
-                if tok_out[0] in (0, 1):
-                    tok_out = tok_out[:2] + canon_nan(tok_out[2:3]) + tok_out[3:] if tok_out[0] == 1 else canon_nan(tok_out)
-            tam = []
-            if c.tamper is not None:
-                tam = [[] if "name" not in c.tamper else [bytes.fromhex(c.tamper["name"])],
-                       [] if "type" not in c.tamper else [c.tamper["type"]]]
-            fuel = min(400000, 4 * (len(reqf) + sum(len(x) for x in reps)) + 2000)
-            call_tok = [P.sids[(cfn, csvc)], P.sids[(sfn, ssvc)], go_name(m).encode(), REGISTRY[transport], hdrs,
-                        tok_args, tok_out, tok_log, tok_cli, nrep,
-                        [reqf[4:]] if (binary and reqf) else [], [reps[0][4:]] if (binary and reps) else [], tam, fuel]
+            if proto in BYTE_LEVEL and reqf:
+                stats["byte_level/" + proto] += 1
             key = (cfn, csvc, sfn, ssvc)
             per_case.setdefault(key, ([], []))
             per_case[key][0].append(call_tok)
@@ -718,7 +752,13 @@ def _run_program(ctx, prog, lb, plan, stats, judge_cases, judge_meta):
                 # an undeclared exception's message prints pointer fields as addresses: not part of the outcome
                 cl = dict(cl or {})
                 if cl.get("kind") == "appexc" and cl.get("msg"):
-                    cl["msg"] = re.sub(rb"0xc[0-9a-f]{6,12}", b"0xPTR", bytes.fromhex(cl["msg"])).hex()
+                    txt = re.sub(rb"0xc[0-9a-f]{6,12}", b"0xPTR", bytes.fromhex(cl["msg"]))
+                    if cb.desc[0] == "exc" and cl.get("type") == 6:
+                        # ... and fmt prints a map in key order, which for keys holding pointers is the order of the
+                        # addresses of this very value (each call raises a fresh one): keep what does not depend on
+                        # them, the text up to the exception's first field and its length
+                        txt = txt.split(b"(", 1)[0] + b"(...%d" % len(txt)
+                    cl["msg"] = txt.hex()
                 return cl
             try:
                 same = observed_client(P, cb, _noaddr(b.get("client"))) == observed_client(P, cb, _noaddr(alone["client"]))
@@ -739,10 +779,77 @@ def _run_program(ctx, prog, lb, plan, stats, judge_cases, judge_meta):
                 rep = dict(base)
                 rep.update({"method": calls[i].m["name"], "call": req["calls"][i], "burst": req["burst"], "observed": b,
                             "alone": alone, "idl": L.render(p)})
+                sig = None
+                if proto == "json":
+                    # the known finding of Thrift's JSON reader hits a call or not depending on where its special
+                    # doubles fall in the stream (the burst's extra header shifts them): alone and burst may differ
+                    txts = b""
+                    for side in (b, alone):
+                        txts += bytes.fromhex(((side.get("client") or {}).get("msg")) or "")
+                        txts += b"".join(bytes.fromhex(x) for x in side.get("replies") or [])
+                    if THRIFT_JSON_SPLIT.search(txts):
+                        sig = {"class": "thrift_json_special_double_split_at_4096"}
+                        stats["known/thrift_json_special_double_split"] += 1
                 ctx.violation("C03: %s over %s/%s with %d calls in flight through one client: %s" % (
-                    calls[i].m["name"], transport, proto, len(req["burst"]), "; ".join(problems)), rep)
+                    calls[i].m["name"], transport, proto, len(req["burst"]), "; ".join(problems)), rep, signature=sig)
             else:
                 stats["burst_ok"] += 1
+        # --- the burst on the model: one case per round for Judge/JGenCallConc.v (the composition of the registry model
+        # with the call model): the hypotheses of c03_concurrent_calls_independent on what travelled (pairwise distinct
+        # op ids, replies delivered when alone, only server replies to these calls arrived) and its conclusion (each
+        # caller saw what the model gives for its call made alone, on its own request / reply bytes)
+        for fr in resp.get("burst_frames") or []:
+            rnd = fr.get("round")
+            if ctx.tier == "quick" and rnd != 0:
+                continue    # quick tier: the direct oracle above sees every round, the model the first one
+            bs = [b for b in resp.get("burst") or [] if b.get("round") == rnd and "client" in b and
+                  b["index"] < len(resp["calls"]) and "client" in resp["calls"][b["index"]]]
+            if len(bs) < 2:
+                continue
+            if proto == "json":
+                txts = b"".join(bytes.fromhex(x) for x in fr.get("replies") or [])
+                txts += b"".join(bytes.fromhex((b_.get("client") or {}).get("msg") or "") for b_ in bs)
+                if THRIFT_JSON_SPLIT.search(txts):
+                    stats["burst_rounds_with_known_thrift_json_finding"] += 1
+                    continue    # the round holds a call hit by the known finding of Thrift's JSON reader (reported above)
+            by_op_req, by_op_rep = {}, collections.defaultdict(list)
+            for x in fr.get("requests") or []:
+                fb = bytes.fromhex(x)
+                hd = dict((k, v) for k, v in (parse_headers(fb) or []))
+                by_op_req[hd.get(b"_opid")] = fb
+            for x in fr.get("replies") or []:
+                fb = bytes.fromhex(x)
+                hd = dict((k, v) for k, v in (parse_headers(fb) or []))
+                by_op_rep[hd.get(b"_opid")].append(fb)
+            toks, metas, ok = [], [], True
+            for b in bs:
+                cb = calls[b["index"]]
+                op = str(b.get("opid")).encode()
+                reqf = by_op_req.get(op, b"")
+                reps = by_op_rep.get(op, [])
+                hl = b.get("handler") or []
+                try:
+                    seen = [L.from_wire(p, a["type"], j) for a, j in zip(cb.m["args"], (hl[0].get("args") or []))] if hl else None
+                    tok = call_token(P, cb, b, hl, seen, bytes.fromhex(b.get("outcome_text", "")), cfn, csvc, sfn, ssvc,
+                                     transport, proto, reqf, reps)
+                except Exception as ex:  # noqa  (an observation the oracle above has already reported)
+                    tok = None
+                if tok is None:
+                    ok = False
+                    break
+                toks.append(tok)
+                m2 = dict(base)
+                m2.update({"method": cb.m["name"], "call": req["calls"][b["index"]], "observed": b, "round": rnd,
+                           "in_flight": len(bs)})
+                metas.append(m2)
+            if not ok:
+                stats["burst_rounds_not_judged"] += 1
+                continue
+            stats["burst_rounds_judged"] += 1
+            stats["burst_rounds/" + transport] += 1
+            if burst_cases is not None:
+                burst_cases.append([P.env, P.services, toks, [bytes.fromhex(x)[4:] for x in fr.get("replies") or []]])
+                burst_meta.append((L.render(p), metas, dict(base, round=rnd)))
         if failed_session is not None and len(ctx.violations) == failed_session[1]:
             rep = dict(base)
             rep.update({"idl": L.render(p), "response": str(failed_session[0])[:1500], "request": req,
@@ -852,13 +959,14 @@ TAGS = {1: "value returned", 2: "declared exception", 4: "undeclared error -> IN
         8: "TApplicationException passed on", 16: "oneway without reply", 32: "oneway with error reply",
         64: "unknown method", 128: "reply rejected (name/type)", 256: "inherited method",
         512: "RESPONSE_TOO_LARGE mapping", 1024: "byte-level replay", 2048: "reply not delivered",
-        4096: "arguments refused by the generated Write"}
+        4096: "arguments refused by the generated Write", 8192: "replayed over the compact codec"}
 
 
 def run(ctx, br):
     quick = ctx.tier == "quick"
     stats = collections.Counter()
     judge_cases, judge_meta = [], []
+    burst_cases, burst_meta = [], []
     tag = "c03_%d" % (ctx.seed % 100000)
     if quick:
         progs = [("boundary", {"boundary": 6}), ("small", {"combos": 6, "per_method": 3}),
@@ -877,13 +985,33 @@ def run(ctx, br):
             prog = L.gen_program(ctx.rng, pid, size, features={"scopes": False, "consts": True})
         sizes[size] += 1
         before = len(ctx.violations)
-        run_program(ctx, prog, "%s_%d" % (tag, i), plan, stats, judge_cases, judge_meta)
+        run_program(ctx, prog, "%s_%d" % (tag, i), plan, stats, judge_cases, judge_meta, burst_cases, burst_meta)
         nprog += 1
         if len(ctx.violations) - before > 30:
             break
+    # the two judges, the burst cases in two halves: three coqc pipelines side by side
     t_j = __import__("time").time()
-    verdicts = vlib.run_judge(ctx.rundir, "JGenCall", "judge", judge_cases, shard=500000) if judge_cases else []
-    stats["ms_judge"] += int(1000 * (__import__("time").time() - t_j))
+    half = (len(burst_cases) + 1) // 2
+    jobs = [("JGenCall", judge_cases, "j"), ("JGenCallConc", burst_cases[:half], "jb"),
+            ("JGenCallConc", burst_cases[half:], "jc")]
+    jres = [None] * len(jobs)
+
+    def _judge(k):
+        mod, cs, nm = jobs[k]
+        try:
+            jres[k] = vlib.run_judge(ctx.rundir, mod, "judge", cs, shard=500000, name=nm) if cs else []
+        except Exception as ex:  # noqa
+            jres[k] = ex
+    ths = [threading.Thread(target=_judge, args=(k,)) for k in range(len(jobs))]
+    for th in ths:
+        th.start()
+    for th in ths:
+        th.join()
+    for r in jres:
+        if isinstance(r, Exception):
+            raise r
+    verdicts = jres[0]
+    stats["ms_judges"] += int(1000 * (__import__("time").time() - t_j))
     mism = 0
     tagbits = collections.Counter()
     validated = 0
@@ -902,9 +1030,36 @@ def run(ctx, br):
             for b in TAGS:
                 if v & b:
                     tagbits[TAGS[b]] += 1
+    # --- bursts on the composed model
+    bverdicts = jres[1] + jres[2]
+    BURST_FAIL = {-1001: "op ids of the calls in flight are not pairwise distinct",
+                  -1002: "a call's reply would not be delivered to it when made alone (delivered_aloneb)",
+                  -1003: "a reply frame travelled that is not the server model's reply to one of the calls in flight (net_okb)",
+                  -1000: "burst case malformed"}
+    burst_tags = collections.Counter()
+    for (idl, metas, bmeta), v in zip(burst_meta, bverdicts):
+        if v < 0:
+            mism += 1
+            if v in BURST_FAIL:
+                rep = dict(bmeta)
+                rep["calls"] = [dict((k, str(x)[:400]) for k, x in m_.items()) for m_ in metas]
+                why = BURST_FAIL[v]
+            else:
+                rep = dict(metas[-v - 1]) if -v - 1 < len(metas) else dict(bmeta)
+                why = "a caller's outcome in the burst is not the model's outcome of the same call made alone"
+            rep["idl"] = idl
+            rep["no_failing_input_found"] = True
+            rep["broken"] = "correspondence JGenCallConc.judge (Model/GenCallConc.v over Model/Registry.v + Model/GenCall.v; " \
+                            "theorem c03_concurrent_calls_independent): " + why
+            ctx.violation("C03 correspondence (burst, %s over %s/%s): %s" %
+                          (rep.get("method", "round %s" % bmeta.get("round")), bmeta.get("transport"), bmeta.get("proto"), why), rep)
+        else:
+            validated += len(metas)
+            burst_tags["registry: hypotheses checked" if v & 16384 else "direct hand-over"] += 1
     ctx.assumptions += [
-        "TCompact / TJSON codecs are Apache Thrift's: calls under them are compared with the model at the level of values "
-        "(arguments seen, outcome returned, reply count); byte-level replay of request and reply is done for TBinary",
+        "the TJSON codec is Apache Thrift's: calls under it are compared with the model at the level of values "
+        "(arguments seen, outcome returned, reply count); byte-level replay of request and reply is done for TBinary and "
+        "TCompact (Model/ThriftCompact.v + the compact message envelope of Model/GenCall.v)",
         "brokers and sockets deliver frames unchanged and in order (embedded nats-server, net/http, loopback TCP); "
         "base64 of the HTTP transport is Go's",
         "a nil slice/map/binary argument is the same value as an empty one; set/map order is Go's iteration order",
@@ -922,6 +1077,8 @@ def run(ctx, br):
         "program_sizes": dict(sizes),
         "traces_validated_against_impl": validated,
         "judge_cases": len(judge_cases),
+        "burst_cases": len(burst_cases),
+        "burst_cases_by_kind": dict(burst_tags),
         "judge_mismatches": mism,
         "model_branch_hits": dict(tagbits),
         "input_histogram": dict(stats),
